@@ -14,7 +14,9 @@ REF_DIR = os.path.join(os.path.dirname(os.path.dirname(os.path.abspath(__file__)
 
 
 def ref_file(func):
-    return os.path.join(REF_DIR, f"{func.__module__}.{func.__qualname__}.py")
+    # a property's getter and setter share one qualified name: the number of parameters tells them apart
+    n = getattr(getattr(func, "__code__", None), "co_argcount", 0)
+    return os.path.join(REF_DIR, f"{func.__module__}.{func.__qualname__}.{n}.py")
 
 
 def _strip_doc(fdef):
